@@ -24,7 +24,8 @@ type Reader struct {
 	appProps      *appPropertiesXML
 	sheets        []*Sheet
 	sheetRels     map[string]string // RID -> target path
-	gridCells     int               // cells of the grids allocated so far (all sheets)
+	gridCells     int               // grid cells beyond the allowance of their parts, all sheets so far
+	gridParts     map[string]bool   // worksheet parts already loaded into a grid
 }
 
 // Open opens an XLSX file for reading.
@@ -219,17 +220,26 @@ func (r *Reader) parseWorksheets() error {
 		}
 		target = strings.TrimPrefix(target, "/")
 
+		member := target
 		data, err := r.getFileContent(target)
 		if err != nil {
 			// Try without xl/ prefix
 			target = strings.TrimPrefix(target, "xl/")
-			data, err = r.getFileContent("xl/" + target)
+			member = "xl/" + target
+			data, err = r.getFileContent(member)
 			if err != nil {
 				continue // Skip sheets we can't read
 			}
 		}
 
-		sheet, err := r.parseWorksheet(data, sheetRef.Name, i)
+		// A part that several <sheet> entries name brings its cells only once.
+		if r.gridParts == nil {
+			r.gridParts = make(map[string]bool)
+		}
+		fresh := !r.gridParts[member]
+		r.gridParts[member] = true
+
+		sheet, err := r.parseWorksheetPart(data, sheetRef.Name, i, fresh)
 		if err != nil {
 			continue // Skip sheets that fail to parse
 		}
@@ -244,12 +254,24 @@ func (r *Reader) parseWorksheets() error {
 	return nil
 }
 
-// maxGridCells bounds the number of cells of the worksheet grids (rows x columns) of
-// one workbook.
-const maxGridCells = 8 << 20
+// The grid of a worksheet is allocated densely (rows x columns) and its size comes
+// from the largest row number and column reference in the part. A grid may have
+// gridCellsPerElement cells for every <c> element its part brings, whatever the
+// size of the sheet: memory then stays in proportion to the file. What a grid needs
+// beyond that is taken from maxGridCells, one budget for all sheets of a workbook.
+const (
+	maxGridCells        = 8 << 20
+	gridCellsPerElement = 16
+)
 
 // parseWorksheet parses a single worksheet.
 func (r *Reader) parseWorksheet(data []byte, name string, index int) (*Sheet, error) {
+	return r.parseWorksheetPart(data, name, index, true)
+}
+
+// parseWorksheetPart parses a worksheet part; fresh says that no earlier sheet of
+// the workbook was loaded from the same part.
+func (r *Reader) parseWorksheetPart(data []byte, name string, index int, fresh bool) (*Sheet, error) {
 	var ws worksheetXML
 	if err := xml.Unmarshal(data, &ws); err != nil {
 		return nil, err
@@ -279,12 +301,14 @@ func (r *Reader) parseWorksheet(data []byte, name string, index int) (*Sheet, er
 	// Determine dimensions
 	maxRow := 0
 	maxCol := 0
+	elements := 0
 
 	// First pass: find dimensions
 	for _, row := range ws.SheetData.Rows {
 		if row.R > maxRow {
 			maxRow = row.R
 		}
+		elements += len(row.Cells)
 		for _, cell := range row.Cells {
 			col, _, err := ParseCellRef(cell.R)
 			if err != nil {
@@ -297,19 +321,21 @@ func (r *Reader) parseWorksheet(data []byte, name string, index int) (*Sheet, er
 	}
 
 	// The grid is allocated densely, and its size comes from the file: a single
-	// cell addressed XFD1048576 would ask for 17 thousand million cells.
-	if maxRow > 0 && maxCol+1 > maxGridCells/maxRow {
-		return nil, fmt.Errorf("worksheet %q is too large to load: %d rows x %d columns", name, maxRow, maxCol+1)
+	// cell addressed XFD1048576 would ask for 17 thousand million cells, and every
+	// <sheet> entry gets a grid of its own (entries may even name the same part):
+	// one cell at XFD512, 50 bytes, makes a grid of 8 Mi cells, 880 MB, and twenty
+	// such entries in a 1 KB workbook asked for 17 GB. A sheet that does not fit is
+	// skipped like any sheet that fails to parse.
+	allowance := 0
+	if fresh {
+		allowance = gridCellsPerElement * elements
 	}
-
-	// The limit holds for the workbook as a whole: every <sheet> entry gets a grid
-	// of its own, entries may even name the same part, and one cell at XFD512 (50
-	// bytes) makes a grid of 8 Mi cells, 880 MB. Twenty such entries in a 1 KB
-	// workbook asked for 17 GB.
-	if cells := maxRow * (maxCol + 1); cells > maxGridCells-r.gridCells {
-		return nil, fmt.Errorf("worksheet %q does not fit the workbook's limit of %d cells", name, maxGridCells)
-	} else {
-		r.gridCells += cells
+	available := maxGridCells - r.gridCells + allowance
+	if maxRow > 0 && maxCol+1 > available/maxRow {
+		return nil, fmt.Errorf("worksheet %q is too large to load: %d rows x %d columns for %d cells", name, maxRow, maxCol+1, elements)
+	}
+	if cells := maxRow * (maxCol + 1); cells > allowance {
+		r.gridCells += cells - allowance
 	}
 
 	sheet.MaxRow = maxRow - 1 // Convert to 0-indexed
